@@ -32,7 +32,14 @@ FUNCTIONS = [
     'yastn.tn.mps._measure:measure_overlap', 'yastn.tn.mps._measure:measure_mpo', 'yastn.tn.mps._measure:measure_1site',
     'yastn.tn.mps._measure:measure_2site', 'yastn.tn.mps._measure:measure_nsite', 'yastn.tn.mps._measure:vdot',
     'yastn.tn.mps._mps_obc:MpsMpoOBC.pre_1site', 'yastn.tn.mps._mps_obc:MpsMpoOBC.pre_2site', 'yastn.tn.mps._mps_obc:MpsMpoOBC.to_tensor',
-    'yastn.tn.mps._mps_obc:add', 'yastn.tn.mps._mps_obc:multiply',
+    'yastn.tn.mps._mps_obc:add', 'yastn.tn.mps._mps_obc:multiply', 'yastn.tn.mps._mps_parent:_MpsMpoParent.reverse_sites',
+    'yastn.tn.mps._mps_parent:_MpsMpoParent.conj', 'yastn.tn.mps._mps_parent:_MpsMpoParent.transpose', 'yastn.tn.mps._mps_parent:_MpsMpoParent.conjugate_transpose',
+    'yastn.tn.mps._mps_parent:_MpsMpoParent.on_bra',
+    'yastn.tn.mps._env:Env_mpo_mpo_mpo.update_env_to_last', 'yastn.tn.mps._env:Env_mpo_mpo_mpo.update_env_to_first', 'yastn.tn.mps._env:Env_mpo_mpo_mpo.Heff1',
+    'yastn.tn.mps._env:Env_mpo_mpo_mpo.Heff2', 'yastn.tn.mps._env:Env_mpo_mpobra_mpo.update_env_to_last', 'yastn.tn.mps._env:Env_mpo_mpobra_mpo.update_env_to_first',
+    'yastn.tn.mps._env:Env_mpo_mpobra_mpo.Heff1', 'yastn.tn.mps._env:Env_mpo_mpobra_mpo.Heff2', 'yastn.tn.mps._env:EnvParent_3_pbc.__init__',
+    'yastn.tn.mps._env:Env_mps_mpopbc_mps.update_env_to_last', 'yastn.tn.mps._env:Env_mps_mpopbc_mps.update_env_to_first',
+    'yastn.tn.mps._env:Env_mps_mpopbc_mps.Heff1', 'yastn.tn.mps._env:Env_mps_mpopbc_mps.Heff2', 'yastn.tn.mps._generate_mpo:generate_mpo',
 ]
 
 FAMILIES = {  # name: (operator class, sym, D_total of states, D_total of operators, total charge of the state)
@@ -342,6 +349,73 @@ def h_reverse_values(V, family, N, seed):
     V.check_equal('reverse_sites(H)', dense_mpo(V, rH, sp).ravel().tolist(), want.ravel().tolist())
 
 
+def h_mpo_mpo_values(V, family, N, seed):
+    """ operators as vectors: <A|B> = Tr(A^+ B), measure_mpo(A, H, B) = Tr(A^+ H B), with H.on_bra(): Tr(A^+ B H); effective maps """
+    import yastn
+    import yastn.tn.mps as mps
+    from yastn.tn.mps._env import Env
+    A = make_mpo(V, family, N, 'a', seed)
+    B = make_mpo(V, family, N, 'b', seed + 1)
+    H = make_mpo(V, family, N, 'h', seed + 2)
+    sp = ops_of(family).space()
+    Am, Bm, Hm = dense_mpo(V, A, sp), dense_mpo(V, B, sp), dense_mpo(V, H, sp)
+    V.check('oracle-depends-on-the-data', (not V.symbolic) or has_sym((Am * (Hm @ Bm)).sum()))
+    V.check_equal('measure_overlap(A,B)=Tr(A^+B)', [V.call(mps.measure_overlap, A, B)], [(Am * Bm).sum()])
+    for flag, want in (('on_ket', (Am * (Hm @ Bm)).sum()), ('on_bra', (Am * (Bm @ Hm)).sum())):
+        op = H if flag == 'on_ket' else V.call(H.on_bra)
+        V.check_equal(f'measure_mpo(A,H,B):{flag}', [V.call(mps.measure_mpo, A, op, B)], [want])
+        env = V.call(Env, A, [op, B])
+        V.call(env.setup_, to='first')
+        V.call(env.setup_, to='last')
+        for n in range(N - 1):
+            V.check_equal(f'{flag}:measure-at-every-bond', [V.call(env.measure, bd=(n, n + 1))], [want])
+        fa, fb = A.factor, B.factor
+        for n in range(N):
+            X, Y = V.call(B.pre_1site, n), V.call(A.pre_1site, n)
+            V.check_equal(f'{flag}:<Y|Heff1(X)>*factors', [fa * fb * V.call(yastn.vdot, Y, V.call(env.Heff1, X, n))], [want])
+        for n in range(N - 1):
+            XX, YY = V.call(B.pre_2site, (n, n + 1)), V.call(A.pre_2site, (n, n + 1))
+            V.check_equal(f'{flag}:<YY|Heff2(XX)>*factors', [fa * fb * V.call(yastn.vdot, YY, V.call(env.Heff2, XX, (n, n + 1)))], [want])
+
+
+def h_pbc_values(V, family, N, seed, shift):
+    """ periodic MPO acting on open-boundary states: the closed virtual bond is traced; built by a cyclic shift of an open MPO's tensors """
+    import yastn
+    import yastn.tn.mps as mps
+    from yastn.tn.mps._env import Env
+    ket = make_state(V, family, N, 'a', seed)
+    bra = make_state(V, family, N, 'b', seed + 1)
+    H = make_mpo(V, family, N, 'h', seed + 2)
+    sp = ops_of(family).space()
+    d = sum(sp.D)
+    Hp = mps.Mpo(N, periodic=True)
+    for n in range(N):
+        Hp.A[n] = H.A[(n + shift) % N]
+    Hp.factor = H.factor
+    Hm = dense_mpo(V, H, sp)
+    perm = [(n + shift) % N for n in range(N)]
+    Hpm = Hm.reshape((d,) * (2 * N)).transpose(perm + [N + x for x in perm]).reshape(d ** N, d ** N)
+    vk, vb = dense_state(V, ket, sp), dense_state(V, bra, sp)
+    want = vb @ (Hpm @ vk)
+    V.check('oracle-depends-on-the-data', (not V.symbolic) or has_sym(want))
+    V.check_equal('measure_mpo(periodic)=<bra|H|ket>', [V.call(mps.measure_mpo, bra, Hp, ket)], [want])
+    env = V.call(Env, bra, [Hp, ket])
+    V.call(env.setup_, to='first')
+    V.call(env.setup_, to='last')
+    for n in range(N - 1):
+        V.check_equal('periodic:measure-at-every-bond', [V.call(env.measure, bd=(n, n + 1))], [want])
+    fb, fk = bra.factor, ket.factor
+    for n in range(N):
+        for pc in (False, True):
+            A, B = V.call(ket.pre_1site, n, precompute=pc), V.call(bra.pre_1site, n, precompute=pc)
+            V.check_equal(f'periodic:<B|Heff1(A)>*factors(precompute={pc})', [fb * fk * V.call(yastn.vdot, B, V.call(env.Heff1, A, n))], [want])
+    for n in range(N - 1):
+        for pc in (False, True):
+            AA, BB = V.call(ket.pre_2site, (n, n + 1), precompute=pc), V.call(bra.pre_2site, (n, n + 1), precompute=pc)
+            V.check_equal(f'periodic:<BB|Heff2(AA)>*factors(precompute={pc})', [fb * fk * V.call(yastn.vdot, BB, V.call(env.Heff2, AA, (n, n + 1)))], [want])
+    z = V.call(mps.zipper, Hp, ket, opts_svd=None, normalize=False) if False else None
+
+
 def h_env3_refresh(V, family, N, seed, precompute, site, to):
     """
     environment freshness as the sweeps of dmrg_/tdvp_ rely on it: after site tensors change, clear_site_ + update_env_ along the
@@ -477,6 +551,11 @@ def units(tier, which):
                         U.append(('h_complex_values', lab, p))
                     if family in ('spin-Z2', 'fermion-U1'):
                         U.append(('h_reverse_values', lab, p))
+                    if family in ('spin-Z2', 'fermion-U1') and N <= 3:
+                        U.append(('h_mpo_mpo_values', lab, p))
+                if which in ('C06', 'C09') and family in ('spin-Z2', 'fermion-U1', 'fermion-Z2') and N == 3:
+                    for shift in (1, 2):
+                        U.append(('h_pbc_values', f"{lab},shift={shift}", dict(p, shift=shift)))
                 if which in ('C06', 'C09'):
                     for pc in (False, True):
                         U.append(('h_env3_values', f"{lab},precompute={pc}", dict(p, precompute=pc)))
